@@ -310,6 +310,9 @@ class ClassRef:
 
     def members(self):
         """Ordered {name: Member} of an enum class, own body then bases."""
+        cached = self.__dict__.get("_members_cache")
+        if cached is not None:
+            return dict(cached)
         out = {}
         for c in reversed([c for c in self.mro() if isinstance(c, ClassRef)]):
             for n, v in c.attrs.items():
@@ -317,6 +320,7 @@ class ClassRef:
                     continue
                 if isinstance(v, (int, str)) and not isinstance(v, bool):
                     out[n] = Member(self, n, v)
+        self.__dict__["_members_cache"] = dict(out)
         return out
 
     def canonical_members(self):
